@@ -66,7 +66,14 @@ def salt(S, obj, seq, rng, rep, k=None, cheap=False):
             finally:
                 shutil.rmtree(d, ignore_errors=True)
         elif name == "shuffle":
-            obj.get_shuffled_sequence()
+            # entries of `frozen` that are not positions (negative, beyond the end) are ignored by the library
+            n_ = len(seq)
+            frozen = rng.choice([None, None, [-1], {-1, -n_}, [n_ + 3], [0], list(range(0, n_, 2)), (n_ - 1,), {-2, 0, n_}])
+            if frozen is None:
+                obj.get_shuffled_sequence()
+            else:
+                rep.cnt("salt_shuffles_with_frozen_entries")
+                obj.get_shuffled_sequence(frozen)
         elif name == "fractions_edit":
             # the caller owns the dictionary it was given
             d = obj.get_amino_acid_fractions()
@@ -110,8 +117,26 @@ def make_object(S, seq, rng, rep, allow_backend=True):
     """An object for `seq` obtained the way different users obtain one: plain string, typed with blanks / line breaks /
     lower case, or a front-end handle around a backend object built from lower-/mixed-case text."""
     r = rng.random()
-    if r < 0.6:
+    if r < 0.5:
         return S["SP"](seq)
+    if r < 0.6:
+        # an object that went through pickle / copy (multiprocessing pools, caches on disk)
+        import copy
+        import pickle
+        base = S["SP"](seq)
+        if rng.random() < 0.5 and len(seq) <= 60:
+            base.get_kappa()
+        how = rng.choice(["pickle", "pickle2", "deepcopy", "copy", "backend_pickle"])
+        rep.cnt("objects_restored_from_pickle_or_copy")
+        if how == "pickle":
+            return pickle.loads(pickle.dumps(base))
+        if how == "pickle2":
+            return pickle.loads(pickle.dumps(base, 2))
+        if how == "deepcopy":
+            return copy.deepcopy(base)
+        if how == "copy":
+            return copy.copy(base)
+        return S["SP"](SeqObj=pickle.loads(pickle.dumps(base.SeqObj)))
     if r < 0.85 or not allow_backend:
         rep.cnt("objects_from_whitespace_lowercase_text")
         return S["SP"](present(rng, seq))
